@@ -270,6 +270,18 @@ func (m *Manager) packet(packets ...*eioparser.Packet) {
 	m.eioPacketQueue.add(packets...)
 }
 
+// Sends the packets with the connection of the given epoch (see `connEpoch`), or not at all.
+// A packet that answers something that was received with a connection means nothing
+// to the next connection: the server closes a connection that sends it such a packet.
+func (m *Manager) packetOf(epoch uint64, packets ...*eioparser.Packet) {
+	m.eioMu.RLock()
+	defer m.eioMu.RUnlock()
+	if m.connEpoch.Load() != epoch {
+		return
+	}
+	m.eioPacketQueue.add(packets...)
+}
+
 func (m *Manager) onError(err error) {
 	m.errorHandlers.forEach(func(handler *ManagerErrorFunc) { (*handler)(err) }, true)
 }
